@@ -311,7 +311,19 @@ func c17MercuryEntity(c *Ctx, s mercurySpec) *gtfsrt.FeedEntity {
 		proto.SetExtension(a, gtfsrt.E_MercuryAlert, &gtfsrt.MercuryAlert{CreatedAt: cp(&tsAlphabet[0]), UpdatedAt: cp(&tsAlphabet[3]), AlertType: sp("Planned - Part Suspended"),
 			DisplayBeforeActive: cp(new(uint64)), HumanReadableActivePeriod: &gtfsrt.TranslatedString{Translation: []*gtfsrt.TranslatedString_Translation{{Text: sp("Weekends, until further notice")}, {Text: sp("second")}}}})
 		d := uint64(3600)
-		proto.GetExtension(a, gtfsrt.E_MercuryAlert).(*gtfsrt.MercuryAlert).DisplayBeforeActive = &d
+		ma := proto.GetExtension(a, gtfsrt.E_MercuryAlert).(*gtfsrt.MercuryAlert)
+		ma.DisplayBeforeActive = &d
+		// the remaining fields of the Mercury alert extension are populated as well: the metadata
+		// does not carry them and nothing else may depend on them
+		yes := true
+		note := &gtfsrt.TranslatedString{Translation: []*gtfsrt.TranslatedString_Translation{{Text: sp("use the elevator at the north end")}}}
+		ma.StationAlternative = []*gtfsrt.MercuryStationAlternative{{AffectedEntity: &gtfsrt.EntitySelector{StopId: sp("A27")}, Notes: note}}
+		ma.ServicePlanNumber, ma.GeneralOrderNumber = []string{"SP-1"}, []string{"GO-7", "GO-8"}
+		ma.Directionality = cp(new(uint64))
+		ma.AffectedStations = []*gtfsrt.EntitySelector{{StopId: sp("A27")}, {StopId: sp("E01")}}
+		ma.ScreensSummary = note
+		ma.NoAffectedStations = &yes
+		ma.CloneId = sp("lmm:clone:1")
 	}
 	return &gtfsrt.FeedEntity{Id: sp(c17Prefixes[s.prefix]), Alert: a}
 }
